@@ -56,13 +56,14 @@ def patch_ldm_time():
 class LdmUnderTest:
     """A real LDMFacility built by LDMFactory on the virtual clock."""
 
-    def __init__(self, cfg, backend="Dictionary", t0_utc_ms=T0_UTC_MS):
+    def __init__(self, cfg, backend="Dictionary", t0_utc_ms=T0_UTC_MS, service="Reactive"):
         from flexstack.facilities.local_dynamic_map.factory import LDMFactory
         from flexstack.facilities.local_dynamic_map.ldm_classes import Location
         patch_ldm_time()
         VCLOCK.set_ms(t0_utc_ms)
         self.cfg = cfg
         self.backend = backend
+        self.service = service       # "Reactive" | "Thread" (the caller replaces threading in ldm_service_threads first)
         self.tmpdir = None
         loc = Location.initializer(latitude=cfg["lat"], longitude=cfg["lon"], altitude_value=cfg["alt"],
                                    relevance_distance=cfg["rd"])
@@ -72,11 +73,11 @@ class LdmUnderTest:
             cwd = os.getcwd()
             os.chdir(self.tmpdir)
             try:
-                self.ldm = LDMFactory().create_ldm(loc, "Reactive", "Reactive", "TinyDB")
+                self.ldm = LDMFactory().create_ldm(loc, "Reactive", service, "TinyDB")
             finally:
                 os.chdir(cwd)
         else:
-            self.ldm = LDMFactory().create_ldm(loc, "Reactive", "Reactive", backend)
+            self.ldm = LDMFactory().create_ldm(loc, "Reactive", service, backend)
         self.if3 = self.ldm.if_ldm_3
         self.if4 = self.ldm.if_ldm_4
         self.db = self.ldm.ldm_maintenance.data_containers
@@ -161,24 +162,54 @@ def simple_message(typ: int, tok: int) -> dict:
 
 
 def make_location(lat, lon, alt, extra):
-    """Location object; extra = dict(smc, smo, smic, ac, radius, rd, td)"""
+    """Location object; extra = dict(smc, smo, smic, ac, radius, rd, td) plus, optionally (audit round),
+    rect / ell = [a, b, azimuth] (azimuth: int, or {"direction": n} for a Direction object) and circle=False
+    for a geometric area without circle"""
     from flexstack.facilities.local_dynamic_map.ldm_classes import Location
-    return Location.initializer(latitude=lat, longitude=lon, altitude_value=alt,
-                                semi_major_confidence=extra["smc"], semi_major_orientation=extra["smo"],
-                                semi_minor_confidence=extra["smic"], altitude_confidence=extra["ac"],
-                                radius=extra["radius"], relevance_distance=extra["rd"],
-                                relevance_traffic_direction=extra["td"])
+    if not (extra.get("rect") or extra.get("ell") or extra.get("circle") is False):
+        return Location.initializer(latitude=lat, longitude=lon, altitude_value=alt,
+                                    semi_major_confidence=extra["smc"], semi_major_orientation=extra["smo"],
+                                    semi_minor_confidence=extra["smic"], altitude_confidence=extra["ac"],
+                                    radius=extra["radius"], relevance_distance=extra["rd"],
+                                    relevance_traffic_direction=extra["td"])
+    from flexstack.facilities.local_dynamic_map.ldm_classes import (
+        ReferencePosition, PositionConfidenceEllipse, Altitude, ReferenceArea, GeometricArea, Circle, Rectangle,
+        Ellipse, RelevanceArea, RelevanceDistance, RelevanceTrafficDirection, Direction)
+
+    def az(v):
+        return Direction(v["direction"]) if isinstance(v, dict) else v
+
+    def shape(cls, v):
+        return None if not v else cls(v[0], v[1], az(v[2]))
+    rp = ReferencePosition(latitude=lat, longitude=lon,
+                           position_confidence_ellipse=PositionConfidenceEllipse(
+                               semi_major_confidence=extra["smc"], semi_major_orientation=extra["smo"],
+                               semi_minor_confidence=extra["smic"]),
+                           altitude=Altitude(altitude_value=alt, altitude_confidence=extra["ac"]))
+    ga = GeometricArea(circle=None if extra.get("circle") is False else Circle(radius=extra["radius"]),
+                       rectangle=shape(Rectangle, extra.get("rect")), ellipse=shape(Ellipse, extra.get("ell")))
+    ra = ReferenceArea(geometric_area=ga,
+                       relevance_area=RelevanceArea(relevance_distance=RelevanceDistance(relevance_distance=extra["rd"]),
+                                                    relevance_traffic_direction=RelevanceTrafficDirection(extra["td"])))
+    return Location(rp, ra)
 
 
 def location_dict(lat, lon, alt, extra):
-    """what the interface description says is stored for a Location (independent of to_dict)"""
+    """what the interface description says is stored for a Location (independent of to_dict); the azimuth of a
+    rectangle / ellipse is stored as the plain number of the direction"""
+    def az(v):
+        return v["direction"] if isinstance(v, dict) else v
+
+    def shape(v):
+        return None if not v else {"aSemiAxis": v[0], "bSemiAxis": v[1], "azimuthAngle": az(v[2])}
     return {"referencePosition": {"latitude": lat, "longitude": lon,
                                   "positionConfidenceEllipse": {"semiMajorConfidence": extra["smc"],
                                                                 "semiMinorConfidence": extra["smic"],
                                                                 "semiMajorOrientation": extra["smo"]},
                                   "altitude": {"altitudeValue": alt, "altitudeConfidence": extra["ac"]}},
-            "referenceArea": {"geometricArea": {"circle": {"radius": extra["radius"]}, "rectangle": None,
-                                                "ellipse": None},
+            "referenceArea": {"geometricArea": {"circle": None if extra.get("circle") is False else {"radius": extra["radius"]},
+                                                "rectangle": shape(extra.get("rect")),
+                                                "ellipse": shape(extra.get("ell"))},
                               "relevanceArea": {"relevanceDistance": extra["rd"],
                                                 "relevanceTrafficDirection": extra["td"]}}}
 
